@@ -24,7 +24,7 @@ FILE = {"c1": "fa.py", "c2": "apps/ab/__init__.py"}
 SVC = ("s1", "s2")
 EV = ("e1", "e2")
 ENT = ("a", "b", "c")
-ALL_ACTS = ["define", "del", "rebind", "push", "pop", "clear", "reload", "close", "unload", "start", "fire", "set",
+ALL_ACTS = ["define", "del", "rebind", "push", "pop", "clear", "reload", "close", "unload", "boot", "fire", "set",
             "call", "out"]
 ALL_FLAGS = ["service-handler-not-repointed", "notify-del-returns-early", "dm-delayed-start-ignores-drop",
              "dm-start-order-arbitrary", "dm-service-owner-is-evaluator-name", "dm-service-multi-arg-rejected"]
@@ -67,9 +67,11 @@ def decorators(d):
     svc = sorted(d["svc"])
     if svc:
         if d["sf"] == "args":
-            out.append('@service(%s, supports_response="%s")' % (", ".join('"pyscript.%s"' % s for s in svc), d["resp"]))
+            names = [", ".join('"pyscript.%s"' % s for s in svc)]
         else:
-            out += ['@service("pyscript.%s", supports_response="%s")' % (s, d["resp"]) for s in svc]
+            names = ['"pyscript.%s"' % s for s in svc]
+        kw = "" if d["resp"] == "none" else ', supports_response="%s"' % d["resp"]       # "none" is the default
+        out += ["@service(%s%s)" % (n, kw) for n in names]
     st = sorted(d["st"])
     if st:
         if len(st) == 1 and "." not in st[0]:
@@ -234,6 +236,9 @@ def run_case(case):
                 "cnt": {s: Function.service_cnt.get("pyscript." + s, 0) for s in SVC},
                 "has": {s: hass.services.has_service("pyscript", s) for s in SVC},
                 "own": {s: ctx_of(Function.service2global_ctx.get("pyscript." + s)) for s in SVC},
+                "sr": {s: (str(getattr(hass.services.supports_response("pyscript", s), "value",
+                                       hass.services.supports_response("pyscript", s)))
+                           if hass.services.has_service("pyscript", s) else "-") for s in SVC},
                 "sub": {x: len(State.notify.get("pyscript." + x, {})) for x in ENT},
                 "evq": {e: (len(Event.notify.get(e, ())) if legacy else lis.get(e, 0)) for e in EV},
                 "evl": {e: lis.get(e, 0) for e in EV},
@@ -310,7 +315,7 @@ def run_case(case):
                 if not await hass.config_entries.async_unload(entry.entry_id):
                     raise RuntimeError("unload refused")
                 state["unloaded"] = True
-            elif k == "start":
+            elif k == "boot":                 # the files were written before set-up: HA finishes starting now
                 hass.bus.async_fire(EVENT_HOMEASSISTANT_STARTED)
             elif k == "fire":
                 hass.bus.async_fire(a["e"], {"p": "1"})
@@ -374,7 +379,20 @@ def run_case(case):
             out["steps"].append({"act": a, "obs": obs})
         gc.unfreeze()
 
+    try:        # class-level registries that world.reset() does not know (present only with the proposed fix)
+        from custom_components.pyscript.function import Function as _F
+        getattr(_F, "service_handlers", {}).clear()
+    except Exception:
+        pass
     files = {FILE[c]: prelude(c) for c in ctxs if c in FILE}
+    first = case["steps"][0]["act"] if case["steps"] else {}
+    if not case["started"]:
+        if first.get("a") != "boot":
+            raise ValueError("a case that is not started must begin with boot")
+        if "c1" in ctxs:
+            files[FILE["c1"]] = file_src("c1", first["d1"], 1)
+        if "c2" in ctxs:
+            files[FILE["c2"]] = file_src("c2", first["d2"], 1 + len(first["d1"]))
     world.run(files, body, legacy=legacy, pre=pre, realfs=True, apps_cfg={"ab": {}} if "c2" in ctxs else None,
               start_event=case["started"])
     res = dict(case)
@@ -406,12 +424,12 @@ def unset(v):
 
 def sim_cfg(path, consts, extra=""):
     c = {"MaxGen": 8, "MaxSteps": 12, "Ctx": '{"c1", "c2", "c3"}', "Name": '{"f", "g", "h"}', "FlagSets": "{{}}",
-         "SubSet": '{"dm"}', "StartedSet": "{TRUE, FALSE}", "Eager": "TRUE", "DeclSet": '"all"',
+         "SubSet": '{"dm"}', "StartedSet": "{TRUE, FALSE}", "Eager": "TRUE", "DeclSet": "AllDecls",
          "MaxDefs": 2, "Vias": '{"exec", "run"}',
          "Acts": "{%s}" % ", ".join('"%s"' % a for a in ALL_ACTS)}
     c.update(consts)
     with open(path, "w") as f:
-        f.write("SPECIFICATION Spec\nCONSTANTS\n" + "".join(" %s = %s\n" % kv for kv in c.items()) + extra +
+        f.write("SPECIFICATION Spec\nCONSTANTS\n" + "".join(" %s %s %s\n" % (k, "<-" if str(v)[:1].isalpha() and str(v) not in ("TRUE", "FALSE") else "=", v) for k, v in c.items()) + extra +
                 "CHECK_DEADLOCK FALSE\n")
     return path
 
@@ -428,6 +446,8 @@ def behaviours(ctx, label, consts, num, depth, seed):
             continue
         acts = [unset(s["lastAct"]) for s in states[1:]]
         out.append({"started": bool(states[0]["started"]), "acts": acts})
+    # a behaviour that never booted has no steps to replay
+    out = [b for b in out if b["acts"]]
     return out
 
 
@@ -467,15 +487,15 @@ OUT_GIVE = ["p=1", "p=2,q=x", "p=1,blocking=True", "return_response=False,p=2,q=
 
 
 def gen_random(r, nsteps, ctxs, mask):
-    """mask: set of deviation flags whose locus must be avoided (the masked space must be clean)."""
+    """mask: set of deviation flags whose locus must be avoided (the masked space must be clean).
+    Returns {"started", "acts"}."""
     names = ["f", "g", "h"]
-    started = r.random() < 0.85
-    gens = []                       # per generation: {"c", "d", "active"(may hold services)}
+    gens = []                       # declaration and context per generation
     bind = {c: {n: 0 for n in names} for c in ctxs}
     cont = {c: {"L": [], "D": 0} for c in ctxs}
     loaded = set(ctxs)
-    unloaded = False
     acts = []
+    files = [c for c in ctxs if c in FILE]
 
     def referenced():
         s = set()
@@ -486,12 +506,13 @@ def gen_random(r, nsteps, ctxs, mask):
                 s.add(cont[c]["D"])
         return s
 
-    def declared_elsewhere(c, s):
+    def declared(s, other_than=None):
         ref = referenced()
-        return any(g["c"] != c and (i + 1) in ref and s in g["d"]["svc"] for i, g in enumerate(gens))
+        return [g for i, g in enumerate(gens) if (i + 1) in ref and s in g["d"]["svc"] and g["c"] != other_than]
 
-    def pick_decl(c, via="exec", in_file=False):
-        for _ in range(30):
+    def pick_decl(c, via="exec", pending=()):
+        """pending: definitions of the same file content chosen so far."""
+        for _ in range(40):
             d = r.choice(DECL_POOL)
             if "dm-service-multi-arg-rejected" in mask and d["sf"] == "args" and len(d["svc"]) > 1:
                 continue
@@ -501,102 +522,101 @@ def gen_random(r, nsteps, ctxs, mask):
                 continue
             if "notify-del-returns-early" in mask and len({n.split(".")[0] for n in d["st"]}) < len(d["st"]):
                 continue
-            confl = [s for s in d["svc"] if declared_elsewhere(c, s)]
-            if confl and (len(d["svc"]) != 1 or not started):
+            if any(declared(s, other_than=c) for s in d["svc"]) and len(d["svc"]) != 1:
+                continue                      # cross-context conflict only with a single service
+            if any(set(df["d"]["svc"]) & set(d["svc"]) and df["c"] != c for df in pending):
                 continue
             if "service-handler-not-repointed" in mask and d["svc"]:
-                # at most one live declaration per service: never declare a service somebody still declares
-                ref = referenced()
-                if any((i + 1) in ref and set(g["d"]["svc"]) & set(d["svc"]) for i, g in enumerate(gens)):
+                # at most one live declaration per service
+                if any(declared(s) for s in d["svc"]) or any(set(df["d"]["svc"]) & set(d["svc"]) for df in pending):
                     continue
+            if "dm-start-order-arbitrary" in mask and any(set(df["d"]["svc"]) & set(d["svc"]) for df in pending):
+                continue
             return d
         return None
 
-    def auto(c):
-        return c == "c3" or started
-
-    def delayed_shutdown(cs):
-        ref = referenced()
-        return any(g["c"] in cs and (i + 1) in ref and not g["started"] and "shutdown" in g["d"]["tt"]
-                   for i, g in enumerate(gens))
-
-    while len(acts) < nsteps and not unloaded:
-        c = r.choice(sorted(loaded)) if loaded else None
-        k = r.choices(["define", "del", "rebind", "push", "pop", "clear", "reload", "close", "unload", "start", "fire",
-                       "set", "call", "out"],
-                      [18, 8, 5, 12, 4, 4, 7, 2, 1, 6 if not started else 0, 9, 9, 12, 3])[0]
-        if k == "start":
-            if started:
+    def content(c, others=()):
+        defs = []
+        for _ in range(r.choice([0, 1, 1, 2, 2])):
+            d = pick_decl(c, pending=list(others) + [dict(df, c=c) for df in defs])
+            if d is None:
                 continue
-            started = True
-            for g in gens:
-                g["started"] = True
-            acts.append({"a": "start"})
-        elif k == "unload":
-            if len(acts) < nsteps * 0.6 or delayed_shutdown(set(ctxs)):
+            n = r.choice(names)
+            dup = [df for df in defs if df["n"] == n]
+            if dup and ("dm-delayed-start-ignores-drop" in mask or any("shutdown" in df["d"]["tt"] for df in dup)):
                 continue
-            unloaded = True
+            defs.append({"n": n, "d": d})
+        return defs
+
+    def install(c, defs):
+        bind[c] = {n: 0 for n in names}
+        cont[c] = {"L": [], "D": 0}
+        for df in defs:
+            gens.append({"c": c, "d": df["d"]})
+            bind[c][df["n"]] = len(gens)
+
+    started = r.random() < 0.7 or not files
+    if not started:
+        d1 = content("c1") if "c1" in ctxs else []
+        d2 = content("c2", others=[dict(df, c="c1") for df in d1]) if "c2" in ctxs else []
+        # no cross-context overlap while HA is starting
+        s1 = {s for df in d1 for s in df["d"]["svc"]}
+        d2 = [df for df in d2 if not (set(df["d"]["svc"]) & s1)]
+        # drop definitions that became duplicates with shutdown by filtering (kept simple: re-check)
+        acts.append({"a": "boot", "d1": d1, "d2": d2, "g": 1})
+        if "c1" in ctxs:
+            install("c1", d1)
+        if "c2" in ctxs:
+            install("c2", d2)
+    kinds = ["define", "del", "rebind", "push", "pop", "clear", "reload", "close", "unload", "fire", "set", "call", "out"]
+    weights = [18, 8, 5, 12, 4, 4, 6, 2, 1, 9, 9, 13, 3]
+    tries = 0
+    while len(acts) < nsteps and tries < nsteps * 30:
+        tries += 1
+        k = r.choices(kinds, weights)[0]
+        if k == "unload":
+            if len(acts) < nsteps * 0.7:
+                continue
             acts.append({"a": "unload"})
-        elif k in ("fire", "set", "call"):
-            if not started:
+            break
+        if k == "fire":
+            acts.append({"a": "fire", "e": r.choice(EV)})
+        elif k == "set":
+            acts.append({"a": "set", "x": r.choice(ENT)})
+        elif k == "call":
+            s = r.choice(SVC)
+            rr = r.random() < 0.4
+            if not rr and any(g["d"]["resp"] == "only" for g in gens if s in g["d"]["svc"]):
+                rr = True                      # a plain call of a response-only service is not generated
+            acts.append({"a": "call", "s": s, "data": r.choice(["-", "p=1", "p=2,q=x"]), "rr": rr})
+        elif k == "reload":
+            if not files:
                 continue
-            if k == "fire":
-                acts.append({"a": "fire", "e": r.choice(EV)})
-            elif k == "set":
-                acts.append({"a": "set", "x": r.choice(ENT)})
-            else:
-                acts.append({"a": "call", "s": r.choice(SVC), "data": r.choice(["-", "p=1", "p=2,q=x"]),
-                             "rr": r.random() < 0.4})
-        elif c is None:
-            if not [x for x in ctxs if x in FILE]:
-                break
-            k = "reload"
-        if k == "reload":
-            fc = [x for x in ctxs if x in FILE]
-            if not fc:
-                continue
-            c = r.choice(fc)
-            if delayed_shutdown({c}):
-                continue
-            for g in [x for x in list(bind[c].values()) + cont[c]["L"] + [cont[c]["D"]] if x]:
-                pass
-            bind[c] = {n: 0 for n in names}
+            c = r.choice(files)
+            old = (bind[c], cont[c])
+            bind[c] = {n: 0 for n in names}       # the old context's declarations are gone when the new ones register
             cont[c] = {"L": [], "D": 0}
-            defs = []
-            for _ in range(r.choice([0, 1, 1, 2, 2, 3])):
-                d = pick_decl(c, in_file=True)
-                if d is None:
-                    continue
-                n = r.choice(names)
-                dup = any(df["n"] == n for df in defs)
-                if dup and ("dm-delayed-start-ignores-drop" in mask):
-                    continue
-                if "dm-start-order-arbitrary" in mask and d["svc"] and any(set(df["d"]["svc"]) & set(d["svc"]) for df in defs):
-                    continue
-                # a definition overwritten during the load must not carry a shutdown trigger (unspecified)
-                if dup and any(df["n"] == n and "shutdown" in df["d"]["tt"] for df in defs):
-                    continue
-                defs.append({"n": n, "d": d})
-                gens.append({"c": c, "d": d, "started": started})
-                bind[c][n] = len(gens)
-            acts.append({"a": "reload", "c": c, "defs": defs, "g": len(gens) - len(defs) + 1})
+            defs = content(c)
+            acts.append({"a": "reload", "c": c, "defs": defs, "g": len(gens) + 1})
+            install(c, defs)
             loaded.add(c)
-        elif k == "close":
-            if len(loaded) <= 1 or delayed_shutdown({c}) or len(acts) < nsteps * 0.4:
+        else:
+            if not loaded:
                 continue
-            bind[c] = {n: 0 for n in names}
-            cont[c] = {"L": [], "D": 0}
-            loaded.discard(c)
-            acts.append({"a": "close", "c": c})
-        elif k in ("define", "del", "rebind", "push", "pop", "clear", "out"):
-            if not auto(c):
-                continue
-            if k == "define":
+            c = r.choice(sorted(loaded))
+            if k == "close":
+                if len(loaded) <= 1 or len(acts) < nsteps * 0.4:
+                    continue
+                bind[c] = {n: 0 for n in names}
+                cont[c] = {"L": [], "D": 0}
+                loaded.discard(c)
+                acts.append({"a": "close", "c": c})
+            elif k == "define":
+                n = r.choice(names)
                 d = pick_decl(c)
                 if d is None:
                     continue
-                n = r.choice(names)
-                gens.append({"c": c, "d": d, "started": True})
+                gens.append({"c": c, "d": d})
                 bind[c][n] = len(gens)
                 acts.append({"a": "define", "c": c, "n": n, "d": d, "g": len(gens)})
             elif k == "del":
@@ -621,7 +641,7 @@ def gen_random(r, nsteps, ctxs, mask):
                 d = pick_decl(c, via=via)
                 if d is None:
                     continue
-                gens.append({"c": c, "d": d, "started": True})
+                gens.append({"c": c, "d": d})
                 if where == "L":
                     cont[c]["L"].append(len(gens))
                 else:
@@ -641,19 +661,13 @@ def gen_random(r, nsteps, ctxs, mask):
                 else:
                     cont[c]["D"] = 0
                 acts.append({"a": "clear", "c": c, "where": where})
-            else:
+            elif k == "out":
                 acts.append({"a": "out", "c": c, "form": r.choice(["name", "call"]), "give": r.choice(OUT_GIVE)})
-    return {"started_init": None, "acts": acts}
+    return {"started": started, "acts": acts}
 
 
 def gen_random_case(seed, nsteps, ctxs, mask):
-    r = random.Random(seed)
-    started0 = None
-    # gen_random draws `started` first; replay the draw to know the initial value
-    r2 = random.Random(seed)
-    started0 = r2.random() < 0.85
-    b = gen_random(r, nsteps, ctxs, mask)
-    return {"started": started0, "acts": b["acts"]}
+    return gen_random(random.Random(seed), nsteps, ctxs, mask)
 
 
 # ------------------------------------------------------------------------------------------------
@@ -792,3 +806,243 @@ def selftest(ctx, accepted_cases, want=24):
     if missed:
         raise MachineryFailure("selftest: corrupted recordings not rejected: %s" % missed[:3])
     ctx.cov["selftest_corruptions_rejected"] = len(bad)
+
+
+# ------------------------------------------------------------------------------------------------
+# directed witnesses of the known deviations (re-executed on every run)
+def D(st=(), ev=(), tt=(), svc=(), resp="none", sf="stack"):
+    return {"st": sorted(st), "ev": sorted(ev), "tt": sorted(tt), "svc": sorted(svc), "resp": resp, "sf": sf}
+
+
+def witnesses():
+    s1 = D(svc=["s1"])
+    multi = D(st=["a", "a.old", "b", "c"])
+    ev = D(ev=["e1"])
+    w = []
+    w.append(("handler", ["dm", "legacy"], [
+        {"a": "define", "c": "c1", "n": "g", "d": s1, "g": 1}, {"a": "define", "c": "c1", "n": "f", "d": s1, "g": 2},
+        {"a": "call", "s": "s1", "data": "p=1", "rr": False}, {"a": "del", "c": "c1", "n": "f"},
+        {"a": "call", "s": "s1", "data": "p=1", "rr": False}]))
+    for k in range(4):          # four copies: the workers run under hash seeds 0..3 (the leak needs 0 or 2)
+        w.append(("notifydel%d" % k, ["dm", "legacy"], [
+            {"a": "define", "c": "c1", "n": "f", "d": multi, "g": 1}, {"a": "set", "x": "b"},
+            {"a": "del", "c": "c1", "n": "f"}, {"a": "set", "x": "b"}, {"a": "unload"}]))
+    w.append(("delayed", ["dm"], [
+        {"a": "reload", "c": "c1", "defs": [{"n": "f", "d": ev}, {"n": "f", "d": ev}], "g": 1}, {"a": "fire", "e": "e1"}]))
+    for k in range(6):          # the order of a set of objects: vary the allocation history
+        pre = [{"a": "define", "c": "c3", "n": "h", "d": D(st=["b"]), "g": i + 1} for i in range(k)]
+        w.append(("order%d" % k, ["dm"], pre + [
+            {"a": "reload", "c": "c1", "defs": [{"n": "g", "d": s1}, {"n": "f", "d": s1}], "g": k + 1},
+            {"a": "call", "s": "s1", "data": "-", "rr": False}]))
+    w.append(("owner", ["dm"], [
+        {"a": "define", "c": "c1", "n": "f", "d": s1, "g": 1},
+        {"a": "push", "c": "c1", "d": D(ev=["e1"], svc=["s1"]), "where": "L", "via": "run", "g": 2},
+        {"a": "call", "s": "s1", "data": "-", "rr": False}, {"a": "fire", "e": "e1"}]))
+    w.append(("multiarg", ["dm"], [
+        {"a": "define", "c": "c1", "n": "f", "d": D(ev=["e1"], svc=["s1", "s2"], sf="args"), "g": 1},
+        {"a": "call", "s": "s1", "data": "-", "rr": False}, {"a": "fire", "e": "e1"}]))
+    cases = []
+    for name, subs, acts in w:
+        for sub in subs:
+            cases.append({"id": "w/%s/%s" % (name, sub), "sub": sub, "started": True, "ctxs": ["c1", "c2", "c3"],
+                          "steps": [{"act": a} for a in acts], "witness": True})
+    return cases
+
+
+# ------------------------------------------------------------------------------------------------
+# (M) exhaustive model checking: configurations
+ACTS_ALL = "{%s}" % ", ".join('"%s"' % a for a in ALL_ACTS)
+
+
+def acts(*names):
+    return "{%s}" % ", ".join('"%s"' % a for a in names)
+
+
+def mc_cfg(path, consts, invariants=(), properties=(), constraint=None):
+    c = {"MaxGen": 4, "MaxSteps": 6, "Ctx": '{"c1"}', "Name": '{"f", "g"}', "FlagSets": "{{}}", "SubSet": '{"dm"}',
+         "StartedSet": "{TRUE}", "Eager": "TRUE", "DeclSet": "{1}", "MaxDefs": 1, "Vias": '{"exec"}', "Acts": ACTS_ALL}
+    c.update(consts)
+    lines = ["SPECIFICATION Spec", "CONSTANTS"]
+    for k, v in c.items():
+        v = str(v)
+        lines.append(" %s %s %s" % (k, "<-" if v[:1].isalpha() and v not in ("TRUE", "FALSE") else "=", v))
+    lines.append("VIEW View")
+    lines += ["INVARIANT %s" % i for i in invariants]
+    lines += ["PROPERTY %s" % p for p in properties]
+    if constraint:
+        lines.append("CONSTRAINT %s" % constraint)
+    lines.append("CHECK_DEADLOCK FALSE")
+    with open(path, "w") as f:
+        f.write("\n".join(lines) + "\n")
+    return path
+
+
+INV_C09 = ["ActiveIffReferencedAndLoaded", "TablesEqualUnionOfActive", "AfterUnloadBaseline", "StartupOncePerDefine",
+           "ShutdownOncePerRemoval"]
+PROP_C09 = ["NoRunOfDeadGeneration"]
+INV_C12 = ["RegisteredIffCounted", "CountIsLiveDeclarations", "HandlerIsLatestLiveDeclaration", "NoTakeoverAcrossContexts"]
+PROP_C12 = ["RefusedLeavesRegistry", "CallDeliversDataAndTriggerType", "ResponseReturnedWhenSupported",
+            "OutgoingCallDeliversGivenKeywords"]
+ALL_INV = INV_C09 + INV_C12
+ALL_PROP = PROP_C09 + PROP_C12
+
+
+def run_mc(ctx, label, consts, invariants, properties, expect=None, workers=3, timeout=1500):
+    """expect: None (must hold) or a set of invariant/property names one of which must be violated."""
+    cfg = mc_cfg(os.path.join(ctx.scratch, "Lifecycle_%s.cfg" % label), consts, invariants, properties)
+    res = tlc.run("Lifecycle", cfg, ctx.scratch, workers=workers, timeout=timeout)
+    return label, res, expect
+
+
+def mc_report(ctx, results):
+    nflag = nwit = 0
+    for label, res, expect in results:
+        ctx.add_tlc(res, "Lifecycle:" + label)
+        if expect is None:
+            if not res.ok:
+                ctx.report({"clause": "model:" + res.violated, "config": label},
+                           "Lifecycle.tla (flags = {}) violates %s in configuration %s" % (res.violated, label),
+                           {"cex": res.cex})
+        else:
+            if res.ok or res.violated not in expect:
+                raise MachineryFailure("configuration %s: expected a violation of %s, got %s" % (label, sorted(expect), res.violated))
+            if label.startswith("W_"):
+                nwit += 1
+            else:
+                nflag += 1
+                ctx.cov.setdefault("deviation_flags_violate", {})[label] = res.violated
+    ctx.cov["witnesses_violated_as_expected"] = nwit
+    ctx.cov["flag_configurations_violated_as_expected"] = nflag
+
+
+# ------------------------------------------------------------------------------------------------
+# the common driver
+def case_key(c):
+    return json.dumps([c["sub"], c["started"], [s["act"] for s in c["steps"]]], sort_keys=True)
+
+
+def nontrivial(c):
+    """At least one function ran and at least one table changed during the recording."""
+    ran = any(s["obs"]["runs"] for s in c["steps"])
+    tabs = {json.dumps({k: s["obs"][k] for k in ("cnt", "sub", "evq", "tm", "act")}, sort_keys=True) for s in c["steps"]}
+    return ran and len(tabs) > 1
+
+
+def main_common(ctx, prop, mc_jobs, sim_consts, pool, sizes):
+    """mc_jobs: list of (label, consts, invariants, properties, expect); sim_consts: constants of the simulated
+    behaviours (R); pool: declaration pool of the random generator (T); sizes: dict of volumes."""
+    from harness.common import parallel
+    global DECL_POOL
+    DECL_POOL = pool
+    allctx = ["c1", "c2", "c3"]
+    if ctx.replay:
+        rp = json.load(open(ctx.replay))
+        c = rp["case"]["case"]
+        case = {"id": c["id"], "sub": c["sub"], "started": c["started"], "ctxs": c["ctxs"],
+                "steps": [{"act": a} for a in c["acts"]]}
+        done = execute(ctx, [case], nproc=1)
+        validate(ctx, done, "replay")
+        return
+    masked_consts = dict(sim_consts)
+    masked_consts.update({"DeclSet": sim_consts.get("DeclSet_masked", "MaskedDecls"), "MaxDefs": 1, "Vias": '{"exec"}'})
+    masked_consts.pop("DeclSet_masked", None)
+    sim_u = {k: v for k, v in sim_consts.items() if k != "DeclSet_masked"}
+
+    def sim(label, consts, num, seed, constraint=None):
+        cfg_consts = dict(consts)
+        cfg = sim_cfg(os.path.join(ctx.scratch, "Lifecycle_sim_%s.cfg" % label), cfg_consts,
+                      extra=("CONSTRAINT %s\n" % constraint) if constraint else "")
+        files = tlc.simulate("Lifecycle", cfg, ctx.scratch, num, sizes["depth"], seed,
+                             outdir=os.path.join(ctx.scratch, "sim_%s" % label), timeout=1500)
+        out = []
+        for f in files:
+            states = tlc.parse_trace_file(f)
+            if constraint:        # the simulator may emit the state that violates the constraint: cut there
+                for i, st in enumerate(states):
+                    if any(v > 1 for v in st["cnt"].values()):
+                        states = states[:i]
+                        break
+            a = [unset(s["lastAct"]) for s in states[1:]]
+            if a:
+                out.append({"started": bool(states[0]["started"]), "acts": a})
+        return out
+
+    if os.environ.get("VERIF_SKIP_MC"):      # mutant / fix trials: the model is unchanged, only the binding is exercised
+        mc_jobs = []
+    thunks = [(lambda j=j: run_mc(ctx, *j)) for j in mc_jobs]
+    nsplit = sizes.get("simsplit", 3)        # several simulators side by side (different seeds)
+    per = (sizes["sim"] + nsplit - 1) // nsplit
+    for k in range(nsplit):
+        thunks.append(lambda k=k: sim("u%d" % k, sim_u, per, ctx.seed * 100 + 11 + k))
+        thunks.append(lambda k=k: sim("m%d" % k, masked_consts, per, ctx.seed * 100 + 51 + k, constraint="MaskOneDeclaration"))
+    outs = parallel(thunks, max_workers=len(thunks))
+    mc_report(ctx, outs[:len(mc_jobs)])
+    sims = outs[len(mc_jobs):]
+    beh_u = [b for o in sims[0::2] for b in o]
+    beh_m = [b for o in sims[1::2] for b in o]
+    if len(beh_u) < sizes["sim"] // 2 or len(beh_m) < sizes["sim"] // 2:
+        raise MachineryFailure("simulation produced too few behaviours (%d, %d)" % (len(beh_u), len(beh_m)))
+    # (T) random longer sequences
+    rnd_u = [gen_random_case(ctx.seed * 100000 + i, sizes["steps"], allctx, set()) for i in range(sizes["rnd"])]
+    rnd_m = [gen_random_case(ctx.seed * 100000 + 50000 + i, sizes["steps"], allctx, set(ALL_FLAGS)) for i in range(sizes["rnd"])]
+    cases = witnesses()
+    cases += to_cases(beh_u, allctx, "R/u")
+    cases += to_cases(rnd_u, allctx, "T/u")
+    masked = to_cases(beh_m, allctx, "R/m") + to_cases(rnd_m, allctx, "T/m")
+    for c in masked:
+        c["masked"] = True
+    cases += masked
+    done = execute(ctx, cases)
+    accepted, rejections = validate(ctx, done, "main")
+    byid = {c["id"]: c for c in done}
+    acc_cases = [byid[i] for i in accepted]
+    selftest(ctx, [c for c in acc_cases if len(c["steps"]) >= 4][:12])
+    # coverage
+    um = [c for c in done if not c.get("masked")]
+    mm = [c for c in done if c.get("masked")]
+    rej_ids = {r["case"]["id"] for r in rejections}
+    ctx.cov["replayed_behaviours"] = len([c for c in done if c["id"].startswith("R/")])
+    ctx.cov["random_sequences"] = len([c for c in done if c["id"].startswith("T/")])
+    ctx.cov["witness_recordings"] = len([c for c in done if c["id"].startswith("w/")])
+    ctx.cov["evaluations"] = sum(len(c["steps"]) for c in done)
+    ctx.cov["distinct_nontrivial"] = len({case_key(c) for c in done if nontrivial(c)})
+    ctx.cov["rule"] = ("one case = one action sequence (TLC-simulated behaviour of Lifecycle.tla, random longer sequence, or "
+                       "directed witness) executed on the real integration in one subsystem (dm / legacy) with an observation "
+                       "(run log, service registry, subscriptions per entity, bus listeners, timers, managers, baseline after "
+                       "unload) compared by TLC after every step; evaluations = steps compared; non-trivial = at least one "
+                       "function ran and the tables changed; distinct by (subsystem, action sequence)")
+    ctx.cov["unmasked_cases"] = len(um)
+    ctx.cov["unmasked_rejections"] = len([c for c in um if c["id"] in rej_ids])
+    ctx.cov["masked_cases"] = len(mm)
+    ctx.cov["masked_rejections"] = len([c for c in mm if c["id"] in rej_ids])
+    ctx.cov["steps_by_action"] = {}
+    for c in done:
+        for s in c["steps"]:
+            k = s["act"]["a"]
+            ctx.cov["steps_by_action"][k] = ctx.cov["steps_by_action"].get(k, 0) + 1
+    ctx.cov["runs_observed"] = sum(len(s["obs"]["runs"]) for c in done for s in c["steps"])
+    ctx.cov["hash_seeds"] = [0, 1, 2, 3]
+    # reference cycles that only the cyclic collector breaks: reported separately
+    ctx.cov["steps_whose_tables_changed_only_after_gc_collect"] = sum(c.get("gcdep", 0) for c in done)
+    smp = [c for c in done if c.get("gcdep_sample")]
+    if smp:
+        ctx.cov["gc_dependent_sample"] = smp[0]["gcdep_sample"]
+    expl = {}
+    for r in rejections:
+        k = "+".join(r["flags"]) if r["flags"] else "unexplained"
+        expl[k] = expl.get(k, 0) + 1
+    ctx.cov["rejections_by_explaining_deviations"] = expl
+    for c in [c for c in acc_cases if len(c["steps"]) >= 5][:2]:
+        ctx.sample({"id": c["id"], "steps": [{"act": s["act"], "runs": s["obs"]["runs"], "cnt": s["obs"]["cnt"],
+                                               "sub": s["obs"]["sub"]} for s in c["steps"][:8]]})
+    ctx.assumptions += [
+        "the code is sampled at quiescence only (settle + 10 ms of virtual time + gc.collect()); the window between a "
+        "deletion and the completion of the deferred stop is explored in the model (Eager = FALSE) and not required of the code",
+        "state trigger expressions are always true (or any-change names): every change of a watched entity runs the function; "
+        "expression truth is C04's business",
+        "cross-context service conflicts are generated only for declarations with one service; while HA is starting no "
+        "cross-context overlap is generated; a plain call of a response-only service is not generated; a definition "
+        "overwritten during a file load carries no shutdown trigger (the statement is silent on these)",
+        "the integration's own services (pyscript.reload, jupyter_kernel_start, generate_stubs) stay registered after "
+        "unload; they are not registrations of decorated functions and are excluded from the baseline comparison",
+    ]
